@@ -527,6 +527,22 @@ def needsConversion (protoDomains : List String) (defaultImports : List Nat) (ta
    | [] => false
    | v :: vs => vs.foldl max v != target)
 
+/-- the default-domain versions among ALL `opset_import` entries of the inlined model, in their
+    order (`imp.version for imp in node.model.opset_import if imp.domain in ("", "ai.onnx")`) -/
+def defaultImports (imports : List (String × Nat)) : List Nat :=
+  (imports.filter fun i => i.1 == "" || i.1 == "ai.onnx").map (·.2)
+
+/-- `source_version`: the highest default-domain import, if there is one -/
+def sourceVersion (imports : List (String × Nat)) : Option Nat :=
+  match defaultImports imports with
+  | [] => none
+  | v :: vs => some (vs.foldl max v)
+
+/-- the decision of `adapt_inline` on the raw data: domains of the emitted top-level nodes, all
+    opset imports of the inlined model (every domain), target version of the default domain -/
+def needsConversionFull (protoDomains : List String) (imports : List (String × Nat)) (target : Nat) : Bool :=
+  needsConversion protoDomains (defaultImports imports) target
+
 /-- `Scope.of((node, node_name), *var_names.items())`: every value name of the build, no reserved
     names, no counters -/
 def freshCtx (c : Ctx) (varNames : List String) : Ctx :=
